@@ -101,7 +101,9 @@ See also: fixed, guarded
         else:
             v = self + Rational._dpr  # add 1/2 of lsd for rounding
             v = v.numerator * Rational._dps // v.denominator
-        return Rational._dfmt % (v // Rational._dps, v % Rational._dps)
+        sign = '-' if v < 0 else ''
+        v = abs(v)
+        return sign + Rational._dfmt % (v // Rational._dps, v % Rational._dps)
 
     def __repr__(self): # pragma: no cover
         """repr(self)"""
